@@ -207,6 +207,10 @@ def subj_phrase(c, label, with_id=None):
 
 def card_phrase(rng, nobj):
     r = rng.random()
+    if r < 0.08:
+        # bounds with different numbers of digits (they are strings in the compiler: 9 < 10, but '9' > '10')
+        n, m = rng.choice([0, 2, 3, 9]), rng.choice([10, 11, 12])
+        return f'between {n} and {m}', {'k': 'between', 'n': n, 'm': m}
     if r < 0.2:
         return '', {'k': 'any'}
     if r < 0.75:
